@@ -149,8 +149,17 @@ use quantities::prelude::*;
 use quantities::{AmountT, HasRefUnit, LinearScaledUnit, Quantity, Unit};
 use std::fmt::{Debug, Display};
 use std::ops::{Add, Div, Mul, Sub};
+use std::panic::{catch_unwind, AssertUnwindSafe};
 
 fn amounts() -> Vec<AmountT> { vec![Amnt!(1), Amnt!(17.4), Amnt!(-2.5), Amnt!(0.001)] }
+
+/// one corpus line; an operation that panics (Decimal overflow) is part of the observable behaviour too
+fn line(f: impl FnOnce() -> String) {
+    match catch_unwind(AssertUnwindSafe(f)) {
+        Ok(s) => println!("{s}"),
+        Err(_) => println!("PANIC"),
+    }
+}
 
 fn sec_ref<Q>(name: &str)
 where Q: HasRefUnit + Debug + Display + PartialEq + PartialOrd + Add<Q, Output = Q> + Sub<Q, Output = Q> + Div<Q, Output = AmountT>,
@@ -161,8 +170,11 @@ where Q: HasRefUnit + Debug + Display + PartialEq + PartialOrd + Add<Q, Output =
         for v in &us {
             for a in amounts() {
                 let (q, r) = (Q::new(a, *u), Q::new(a, *v));
-                println!("{name} {:?}->{:?} {:?} | {} | {:>14.3} | {:?} {:?} | {:?} {:?} {:?}", u, v, q.convert(*v).amount(), q, q,
-                         q == r, PartialOrd::partial_cmp(&q, &r), (q + r).amount(), (q - r).amount(), q / r);
+                line(|| format!("{name} {:?}->{:?} {:?} | {} | {:>14.3}", u, v, q.convert(*v).amount(), q, q));
+                line(|| format!("{name} cmp {:?} {:?}", q == r, PartialOrd::partial_cmp(&q, &r)));
+                line(|| format!("{name} + {:?}", (q + r).amount()));
+                line(|| format!("{name} - {:?}", (q - r).amount()));
+                line(|| format!("{name} / {:?}", q / r));
             }
         }
     }
@@ -175,7 +187,7 @@ where Q: Quantity + Debug + Display + PartialEq + PartialOrd, Q::UnitType: Debug
         for v in Q::iter_units() {
             for a in amounts() {
                 let (q, r) = (Q::new(a, u), Q::new(a, v));
-                println!("{name} {:?}/{:?} {} | {:?} {:?}", u, v, q, q == r, PartialOrd::partial_cmp(&q, &r));
+                line(|| format!("{name} {:?}/{:?} {} | {:?} {:?}", u, v, q, q == r, PartialOrd::partial_cmp(&q, &r)));
             }
         }
     }
@@ -187,8 +199,10 @@ where A: HasRefUnit, B: HasRefUnit, R: HasRefUnit + Display, A::UnitType: Linear
     for u in A::iter_units() {
         for v in B::iter_units() {
             for x in amounts() {
-                let r = f(A::new(x, u), B::new(Amnt!(2.5), v));
-                println!("{name} {:?} {:?} {:?} -> {:?} {:?} | {}", u, v, x, r.amount(), r.unit(), r);
+                line(|| {
+                    let r = f(A::new(x, u), B::new(Amnt!(2.5), v));
+                    format!("{name} {:?} {:?} {:?} -> {:?} {:?} | {}", u, v, x, r.amount(), r.unit(), r)
+                });
             }
         }
     }
@@ -224,9 +238,10 @@ def corpus_source(model, table):
         if f == "temperature":
             lines.append("    for u in quantities::temperature::Temperature::iter_units() { for v in quantities::temperature::Temperature::iter_units() {")
             lines.append("        use quantities::Converter;")
-            lines.append('        println!("tconv {:?}", quantities::temperature::TEMPERATURE_CONVERTER.convert(&quantities::temperature::Temperature::new(Amnt!(21.5), u), v)); } }')
+            lines.append('        line(|| format!("tconv {:?}", quantities::temperature::TEMPERATURE_CONVERTER.convert(&quantities::temperature::Temperature::new(Amnt!(21.5), u), v))); } }')
         lines.append("}")
     lines.append("fn main() {")
+    lines.append("    std::panic::set_hook(Box::new(|_| {}));")
     lines.append("    let want: Vec<String> = std::env::args().skip(1).collect();")
     for t in main:
         lines.append('    #[cfg(feature = "%s")]' % t["feature"])
